@@ -11,7 +11,7 @@ from typing import Any, Dict, Iterable, List
 
 from harness import containers as C
 from harness import translate_archives as translate
-from harness.core import Case, Check, Finding, call, short
+from harness.core import OUTSIDE, Case, Check, Finding, call, short
 from harness.props.c12 import _digest, _drain, _err, _parser, _quiet, _scan_view
 
 #: symbols of a member sequence: a good document, the seven fault kinds of the statement (all with an
@@ -81,7 +81,11 @@ class C13(Check):
             inp['nested'] = bool(nested) and ext != '.7z'
         t = list(tags)
         if any(s in BEYOND for s in syms):
+            # WAVE 3: members of a kind the statement does not list (a well-formed XML file that is not PageXML under a
+            # name without the .xml suffix, …; see `assumptions`): "the statement is silent about it, the model
+            # mirrors it, the oracle does not judge it" - outside the quantifier, a difference is only recorded
             t.append('beyond')
+            t.append(OUTSIDE)
         return Case('batch', inp, t)
 
     def cases(self, rng: random.Random, tier: str) -> Iterable[Case]:
